@@ -10,7 +10,7 @@ import operator
 CATALOG = {
     'A': [('id', 'int'), ('x', 'int'), ('y', 'int'), ('s', 'str'), ('b', 'bool')],
     'B': [('id', 'int'), ('x', 'int'), ('z', 'int'), ('t', 'str')],
-    'C': [('id', 'int'), ('w', 'int')],
+    'C': [('id', 'int'), ('w', 'int'), ('d', 'date'), ('ts', 'timestamp')],
 }
 ARITH = ['+', '-', '*']
 CMP = ['==', '!=', '<', '<=', '>', '>=']
@@ -23,7 +23,7 @@ def tables():
     from forml.io import dsl
 
     if not _TABLES:
-        kinds = {'int': dsl.Integer(), 'str': dsl.String(), 'bool': dsl.Boolean(), 'float': dsl.Float()}
+        kinds = {'int': dsl.Integer(), 'str': dsl.String(), 'bool': dsl.Boolean(), 'float': dsl.Float(), 'date': dsl.Date(), 'timestamp': dsl.Timestamp()}
         for name, cols in CATALOG.items():
             schema = dsl.Schema.from_fields(*(dsl.Field(kinds[k], name=c) for c, k in cols), title=name)
             _TABLES[name] = dsl.Table(schema)
@@ -70,7 +70,11 @@ def build_source(desc, env=None):
         _, kind, left, right, cond = desc
         lsrc, rsrc = build_source(left, env), build_source(right, env)
         if kind == 'cross':
-            return lsrc.cross_join(rsrc) if cond is None else lsrc.cross_join(rsrc, build_feature(cond, env))
+            if cond is None:
+                return lsrc.cross_join(rsrc)
+            from forml.io import dsl
+
+            return dsl.Join(lsrc, rsrc, dsl.Join.Kind.CROSS, build_feature(cond, env))
         method = getattr(lsrc, f'{kind}_join')
         return method(rsrc, build_feature(cond, env)) if cond is not None else method(rsrc, None)
     if tag == 'set':
@@ -149,7 +153,7 @@ def kind_of(f):
     if tag == 'not':
         return 'bool'
     if tag == 'agg':
-        return 'int' if f[1] == 'count' else ('float' if f[1] == 'avg' else kind_of(f[2]))
+        return 'int' if f[1] == 'count' else kind_of(f[2])
     if tag == 'bin':
         if f[1] in ARITH:
             ka, kb = kind_of(f[2]), kind_of(f[3])
